@@ -7,10 +7,10 @@ prop("C10",
      runs={
          "quick": [dict(flavour="asan", cases=1000),
                    dict(flavour="rel", cases=5000)],
-         "thorough": [dict(flavour="asan", cases=10000),
-                      dict(flavour="rel", cases=100000)],
+         "thorough": [dict(flavour="asan", cases=6000),
+                      dict(flavour="rel", cases=60000)],
      },
-     min_nontrivial={"quick": 4000, "thorough": 80000},
+     min_nontrivial={"quick": 4000, "thorough": 45000},
      min_obs={"quick": dict({"images_written": 50000, "voxels_compared": 4000000, "positions_compared": 4000000,
                              "data_files_decoded_independently": 50000,
                              "truncation_cases": 400, "truncation_lengths_tested": 15000, "truncations_rejected": 15000,
@@ -19,20 +19,21 @@ prop("C10",
                              "exam_info_fields_compared": 80000, "exam_radionuclide_compared": 5000,
                              "exam_energy_window_compared": 4000, "exam_calibration_compared": 4000,
                              "byte_order_little": 20000, "byte_order_big": 20000,
-                             "scale_mode_auto": 30000, "scale_mode_larger": 12000, "scale_mode_larger-nice": 4000,
+                             "scale_mode_auto": 30000, "scale_mode_larger": 6000, "scale_mode_larger-nice": 4000,
                              "scale_mode_too-small": 2000, "geometry_negative_min_index": 1200,
                              "dist_huge": 150, "dist_tiny": 150, "dist_all-zero": 80, "dist_constant": 120, "dist_all-negative": 40,
-                             "dist_nonpositive-with-zero": 20, "scale_zero_images": 1000,
+                             "dist_nonpositive-with-zero": 20, "scale_zero_images": 2000,
                              "unsigned_negatives_truncated": 200000,
                              "autoscale_UINT": 3000, "autoscale_LONG": 3000, "autoscale_ULONG": 3000, "autoscale_DOUBLE": 3000,
                              "images_with_quotient_beyond_int_range": 8000, "double_output_unscaled": 3000,
                              "header_scale_bit_exact": 50000},
                             **{"type_" + t: 4000 for t in _TYPES}),
-              "thorough": dict({"images_written": 1200000, "voxels_compared": 100000000, "truncation_lengths_tested": 400000,
-                                "truncations_rejected": 400000, "dynamic_cases": 8000, "parametric_cases": 8000,
-                                "exam_info_fields_compared": 2000000, "images_with_quotient_beyond_int_range": 200000,
-                                "scale_zero_images": 20000},
-                               **{"type_" + t: 100000 for t in _TYPES})},
+              "thorough": dict({"images_written": 700000, "voxels_compared": 70000000, "positions_compared": 70000000,
+                                "truncation_lengths_tested": 250000, "truncations_rejected": 250000, "dynamic_cases": 5000,
+                                "parametric_cases": 5000, "exam_info_fields_compared": 1500000,
+                                "images_with_quotient_beyond_int_range": 150000, "scale_zero_images": 20000,
+                                "header_scale_bit_exact": 700000, "unsigned_negatives_truncated": 5000000},
+                               **{"type_" + t: 70000 for t in _TYPES})},
      rule=("case = one generated VoxelsOnCartesianGrid<float> (sizes 1..12 per axis, minimum indices -30..20 incl. STIR's standard "
            "layout, voxel sizes 0.05..50, origins 0 / +-1000 voxels / sub-micron; values: positive, mixed sign, 1e25..1e30, 1e-30..1e-25, "
            "all zero, constants, all negative, non-positive with a zero, counts, sparse, 60 decades of dynamic range; ExamInfo with modality, "
